@@ -192,6 +192,9 @@ Step ==
        [] e.ev = "settled" ->
             /\ crashedSettled' = crashed
             /\ UNCHANGED <<kindOf, started, finished, resolved, cancelled, cancelling, running, live, crashed, brokenSeen, shutdownAt, shutRet, exited, deleted, timeouts, maxw, hasTmo, multi, liveAtCall, subAfterShut>> /\ Fine
+       [] e.ev = "map_result" ->
+            /\ UNCHANGED <<kindOf, started, finished, resolved, cancelled, cancelling, running, live, crashed, crashedSettled, brokenSeen, shutdownAt, shutRet, exited, deleted, timeouts, maxw, hasTmo, multi, liveAtCall, subAfterShut>>
+            /\ Check(<< <<"C03", ~e.good, "C03: map() did not yield list(map(fn, *iterables)) in order">> >>)
        [] e.ev = "sat_probe" ->
             /\ UNCHANGED <<kindOf, started, finished, resolved, cancelled, cancelling, running, live, crashed, crashedSettled, brokenSeen, shutdownAt, shutRet, exited, deleted, timeouts, maxw, hasTmo, multi, liveAtCall, subAfterShut>>
             /\ Check(<< <<"C08", Cardinality(running) < e.n, "C08: fewer than max_workers long tasks run although that many are pending on a healthy executor">> >>)
